@@ -30,6 +30,7 @@ class OneWayBarrier : public galois::substrate::Barrier {
   std::condition_variable cond;
   unsigned count;
   unsigned total;
+  unsigned generation;
 
 public:
   OneWayBarrier(unsigned p) { reinit(p); }
@@ -37,15 +38,23 @@ public:
   virtual ~OneWayBarrier() {}
 
   virtual void reinit(unsigned val) {
-    count = 0;
-    total = val;
+    count      = 0;
+    total      = val;
+    generation = 0;
   }
 
   virtual void wait() {
     std::unique_lock<std::mutex> tmp(lock);
+    unsigned gen = generation;
     count += 1;
-    cond.wait(tmp, [this]() { return count >= total; });
-    cond.notify_all();
+    if (count >= total) {
+      // last arrival: re-arm under the lock and release this generation
+      count = 0;
+      ++generation;
+      cond.notify_all();
+    } else {
+      cond.wait(tmp, [this, gen]() { return generation != gen; });
+    }
   }
 
   virtual const char* name() const { return "OneWayBarrier"; }
@@ -68,12 +77,10 @@ public:
   }
 
   virtual void wait() {
+    // each one-way barrier re-arms itself under its lock when the last
+    // participant arrives
     barrier1.wait();
-    if (galois::substrate::ThreadPool::getTID() == 0)
-      barrier1.reinit(total);
     barrier2.wait();
-    if (galois::substrate::ThreadPool::getTID() == 0)
-      barrier2.reinit(total);
   }
 
   virtual const char* name() const { return "SimpleBarrier"; }
